@@ -634,6 +634,110 @@ def Spec.subset (sp : Spec) (o : Ordering) (p : ParsedSpec) : Except PyErr Spec 
   let own ← spec.mapM (fun t => (ownTerms sp.formula).getPlain (.term t))
   pure { formula := own, structure? := some sub, enc := sp.enc }
 
+/-! ## histories of look-ups on one materialized spec
+
+`term_indices`, `term_slices`, `column_indices`, `term_variables`, `variable_indices` are
+`cached_property`s: computed once, then the SAME dict objects answer every later look-up. A
+look-up could therefore change what a later look-up (or a later reading of the metadata) sees, if
+an accessor wrote to the mapping. The code as it is writes nothing: `_TermMapping.__missing__`
+resolves the string by iterating over the keys and returns `dict.__getitem__(self, term)`;
+`__contains__`, `get`, `get_slice`, `get_term_indices`, `get_column_indices`,
+`get_variable_indices` only read. The state machine below has the cached mappings as its state and
+one transition per accessor, written as the code executes it (new state, outcome). -/
+
+/-- the cached mappings of a materialized spec -/
+structure SpecState where
+  formula : List Term
+  ti : TDict (List Nat)
+  ts : TDict (Nat × Nat)
+  ci : SDict Nat
+  tv : TDict (List Var)
+  vi : Except PyErr (SDict (List Nat))
+
+/-- the state after every cached property was computed from the recorded structure -/
+def SpecState.init (formulaTerms : List Term) (st : Structure) : SpecState :=
+  { formula := formulaTerms, ti := termIndices st, ts := termSlices st, ci := columnIndices st,
+    tv := termVariablesFull st, vi := variableIndices st }
+
+/-- `get_slice` on the cached mappings (same text as `getSlice`) -/
+def getSliceOn (ts : TDict (Nat × Nat)) (ci : SDict Nat) : Ident → Except PyErr (Nat × Nat)
+  | .term t => if ts.contains (.term t) then ts.get (.term t) else .error .valueError
+  | .str s =>
+    if ts.contains (.str s) then ts.get (.str s)
+    else match ci.lookup s with
+      | some i => .ok (i, i + 1)
+      | none => .error .valueError
+
+def getSliceAnyOn (ts : TDict (Nat × Nat)) (ci : SDict Nat) : AnyIdent → Except PyErr PySlice
+  | .slice s => .ok s
+  | .int i => .ok ⟨some i, some (i + 1), none⟩
+  | .term t => (getSliceOn ts ci (.term t)).map PySlice.ofNats
+  | .str s => (getSliceOn ts ci (.str s)).map PySlice.ofNats
+  | .other => .error .valueError
+  | .unhashable => .error .typeError
+
+/-- one accessor call -/
+inductive Op
+  | tiItem (k : Key) | tiGet (k : Key) | tiIn (k : Key)       -- term_indices[k] / .get(k) / k in
+  | tsItem (k : Key) | tsGet (k : Key) | tsIn (k : Key)       -- term_slices …
+  | slice (id : AnyIdent)                                      -- get_slice(id)
+  | termIdx (o : Ordering) (p : ParsedSpec)                    -- get_term_indices(spec, ordering=o)
+  | colItem (s : Str)                                          -- column_indices[s]
+  | colIdx (cols : List Str)                                   -- get_column_indices(cols)
+  | varItem (v : Str)                                          -- variable_indices[v]
+  | varIdx (vs : List Str)                                     -- get_variable_indices(vs)
+
+/-- what an accessor returns -/
+inductive OpVal
+  | nats (xs : List Nat)
+  | optNats (xs : Option (List Nat))
+  | range (s : Nat × Nat)
+  | optRange (s : Option (Nat × Nat))
+  | bool (b : Bool)
+  | pyslice (s : PySlice)
+  | nat (n : Nat)
+deriving Repr, DecidableEq
+
+/-- one transition: the state after the call and the outcome of the call -/
+def SpecState.step (s : SpecState) : Op → SpecState × Except PyErr OpVal
+  | .tiItem k => (s, (s.ti.get k).map .nats)
+  | .tiGet k => (s, (s.ti.getDefault k).map .optNats)
+  | .tiIn k => (s, .ok (.bool (s.ti.contains k)))
+  | .tsItem k => (s, (s.ts.get k).map .range)
+  | .tsGet k => (s, (s.ts.getDefault k).map .optRange)
+  | .tsIn k => (s, .ok (.bool (s.ts.contains k)))
+  | .slice id => (s, (getSliceAnyOn s.ts s.ci id).map .pyslice)
+  | .termIdx o p => (s, (do
+      let spec ← specTerms o p
+      let terms ← restricted s.formula spec
+      let parts ← terms.mapM (fun t => s.ti.get (.term t))
+      pure (OpVal.nats parts.flatten)))
+  | .colItem c => (s, match s.ci.lookup c with
+      | some i => .ok (.nat i)
+      | none => .error .keyError)
+  | .colIdx cols => (s, (cols.mapM (fun c => match s.ci.lookup c with
+      | some i => Except.ok i
+      | none => Except.error PyErr.keyError)).map .nats)
+  | .varItem v => (s, match s.vi with
+      | .ok d => (match d.lookup v with
+        | some xs => .ok (.nats xs)
+        | none => .error .keyError)
+      | .error e => .error e)
+  | .varIdx vs => (s, (do
+      let d ← s.vi
+      let parts ← vs.mapM (fun v => match d.lookup v with
+        | some i => .ok i
+        | none => .error .keyError)
+      pure (OpVal.nats parts.flatten)))
+
+/-- a history of accessor calls: the final state and the outcomes in call order -/
+def SpecState.run (s : SpecState) : List Op → SpecState × List (Except PyErr OpVal)
+  | [] => (s, [])
+  | op :: rest =>
+    let r := s.step op
+    let q := SpecState.run r.1 rest
+    (q.1, r.2 :: q.2)
+
 /-! ## which labels the matrix carries (`_combine_columns`) and the replay of a structure -/
 
 inductive Materializer | pandas | narwhals
